@@ -340,7 +340,7 @@ def replay_bin():
     return b if p.returncode == 0 and os.path.exists(b) else None
 
 
-def find_failing_input(pid):
+def find_failing_input(pid, scale=1, seeds=None):
     """run the property's probe sets on the real crate; -> {'probe':..., 'output':...} for the first disagreement, else None"""
     probes = getattr(obligations, 'PROBES', {}).get(pid, [])
     if not probes:
@@ -348,9 +348,13 @@ def find_failing_input(pid):
     rb = replay_bin()
     if rb is None:
         return None
-    for pr in probes:
+    runs = [(pr, sd) for pr in probes for sd in (seeds or [None])]
+    for pr, sd in runs:
+        env = dict(os.environ, PROBE_PROPERTY=pid, PROBE_SCALE=str(scale))
+        if sd is not None:
+            env['VERIF_SEED'] = str(sd)
         try:
-            r = subprocess.run([rb, 'probe', pr], capture_output=True, text=True, timeout=600, env=dict(os.environ, PROBE_PROPERTY=pid))
+            r = subprocess.run([rb, 'probe', pr], capture_output=True, text=True, timeout=1200, env=env)
         except subprocess.TimeoutExpired:
             return {'probe': pr, 'output': 'TIMEOUT (hang) in probe ' + pr, 'replay_cmd': 'PROBE_PROPERTY=%s %s probe %s' % (pid, rb, pr)}
         if r.returncode != 0:
@@ -673,9 +677,9 @@ def main():
             return undecided('rewritten-source-does-not-pass-the-repository-tests', cov)
         probes = getattr(obligations, 'PROBES', {}).get(pid, [])
         if probes:
-            fi = find_failing_input(pid)
+            fi = find_failing_input(pid, scale=20, seeds=[seed, seed + 1, seed + 2])
             cov['bounded'] += ['probe:' + x for x in probes]
-            cov['probes'] = {'ran': probes, 'failing_input': fi, 'label': 'bounded stand-in on the real crate, not counted as proved'}
+            cov['probes'] = {'ran': probes, 'generated_case_scale': 20, 'seeds': [seed, seed + 1, seed + 2], 'failing_input': fi, 'label': 'bounded stand-in on the real crate, not counted as proved'}
             if fi:
                 os.makedirs(REPLAYS, exist_ok=True)
                 rpath = os.path.join(REPLAYS, '%s-probe-%s.json' % (pid, fi['probe']))
